@@ -140,7 +140,14 @@ class Builder:
             if tag == 'ST':
                 return self.apply('SparseLR._transpose', [o], [d], lambda: o.T), d.T
             if tag == 'SAstype':
-                return self.apply('SparseLR.astype', [o], [d], lambda: o.astype(float)), d
+                # every second type change of an INTEGER-valued operator (sparse part and every low-rank vector integral)
+                # goes to int: the denotation is unchanged, and what follows (scaling by 1/2, float operands, normalize)
+                # must still be exact
+                self.n_astype = getattr(self, 'n_astype', 0) + 1
+                integral = isinstance(o, SparseLR) and bool(np.all(o.sparse_mat.data == np.round(o.sparse_mat.data))) and \
+                    all(bool(np.all(x == np.round(x))) and bool(np.all(y == np.round(y))) for (x, y) in o.low_rank_tuples)
+                to = int if (integral and self.n_astype % 2 == 1) else float
+                return self.apply('SparseLR.astype', [o], [d], lambda: o.astype(to)), d
             if tag == 'SNormalize':
                 rs = d.sum(axis=1)
                 impl_rs = o.dot(np.ones(o.shape[1]))
